@@ -513,3 +513,75 @@ func (fx *FuncExec) varsOf(t *Term) []*Term {
 	fx.varCache[t.id] = out
 	return out
 }
+
+// crossCheck re-solves every obligation that one solver discharged with the other solvers of the portfolio (thorough
+// tier): an independent unsat confirms it, unknown leaves it unconfirmed, and sat is a disagreement between solvers,
+// which is reported as a violation because one of the two answers is wrong.
+func crossCheck(obls []*Obligation, workDir string, timeoutS, seed, par int) (checked, confirmed int, disagreed []*Obligation) {
+	var leaves []*Obligation
+	var walk func(o *Obligation)
+	walk = func(o *Obligation) {
+		if len(o.Sub) > 0 {
+			for _, s := range o.Sub {
+				walk(s)
+			}
+			if !o.OnlySubs && o.Status == "proved" && !strings.Contains(o.Solver, "cases") {
+				leaves = append(leaves, o)
+			}
+			return
+		}
+		leaves = append(leaves, o)
+	}
+	for _, o := range obls {
+		if o.ExpectSat || o.fx == nil || o.Status != "proved" {
+			continue
+		}
+		walk(o)
+	}
+	var mu sync.Mutex
+	var wg sync.WaitGroup
+	sem := make(chan struct{}, par)
+	for _, o := range leaves {
+		if o.Status != "proved" || o.fx == nil || o.Goal == nil {
+			continue
+		}
+		first := strings.TrimSuffix(o.Solver, " (cached)")
+		if first == "simplifier" || first == "contract" || first == "" {
+			continue
+		}
+		wg.Add(1)
+		sem <- struct{}{}
+		go func(o *Obligation, first string) {
+			defer wg.Done()
+			defer func() { <-sem }()
+			renderMu.Lock()
+			script := o.buildScript(nil)
+			renderMu.Unlock()
+			status := "unknown"
+			who := ""
+			for _, sp := range solvers {
+				if sp.name == first || (strings.HasPrefix(first, "z3-new") && strings.HasPrefix(sp.name, "z3-new")) {
+					continue
+				}
+				r := solveScriptWith(script, workDir, timeoutS, seed+1, sp.name)
+				if r.Status == "unsat" || r.Status == "sat" {
+					status, who = r.Status, sp.name
+					break
+				}
+			}
+			mu.Lock()
+			checked++
+			switch status {
+			case "unsat":
+				confirmed++
+				o.Confirmed = who
+			case "sat":
+				o.Output = "solver disagreement: " + first + " said unsat, " + who + " said sat"
+				disagreed = append(disagreed, o)
+			}
+			mu.Unlock()
+		}(o, first)
+	}
+	wg.Wait()
+	return
+}
